@@ -19,15 +19,27 @@ func (c *Check) requireFactFrom(fn *ssa.Function, rule, name, pattern string, fr
 	c.touch(fn)
 	p := c.p
 	construct := name + " @ " + FuncKey(fn)
-	edges := p.MatchEdges(fn, regexp.MustCompile(pattern))
-	if len(edges) == 0 {
+	re := regexp.MustCompile(pattern)
+	edges := p.MatchEdges(fn, re)
+	if target == nil {
+		// success exits, except a `return f(…)` whose success means the fact itself
+		target = p.successTargetsFor(fn, re)
+	} else if len(edges) == 0 {
 		c.Violated(rule, construct, p.Pos(fn.Pos()), "no branch establishes the fact /"+pattern+"/ reason=not-established")
 		return false
 	}
 	ps := &PathSearch{Fn: fn, From: from, AvoidEdges: edgeSet(edges), IsTarget: target}
 	if t, path := ps.Find(); t != nil {
+		if len(edges) == 0 {
+			c.Violated(rule, construct, p.Pos(fn.Pos()), "no branch establishes the fact /"+pattern+"/ reason=not-established")
+			return false
+		}
 		c.Violated(rule, construct, p.InstrPos(t), fmt.Sprintf("a path reaches %s without establishing /%s/", targetDesc, pattern), p.describePath(path)...)
 		return false
+	}
+	if len(edges) == 0 {
+		c.Held(rule, construct, p.Pos(fn.Pos()), "fact on every path to "+targetDesc+" (implied by the returned call)")
+		return true
 	}
 	c.Held(rule, construct, p.InstrPos(edges[0].Block.Instrs[len(edges[0].Block.Instrs)-1]), fmt.Sprintf("fact %q on every path to %s", edges[0].Fact, targetDesc))
 	return true
